@@ -63,6 +63,15 @@ props = {
    "not_decided": ["actual goroutine interleavings and the race detector's view: this technique has no scheduler; what is proved is the premise (no write to any object that existed before the call, no write to a package-level variable) from which race freedom follows by T11",
                    "policies used before their first builder call (bare Policy{} literals): the sanitize family is verified under 'requires p.initialized'"],
    "level_text": "Proof of the read-only premise: every store, map update, delete and every call in the four entry points and everything they reach (sanitize, sanitizeAttrs, sanitizeStyles, validURL, matchRegex, allowNoAttrs, the helpers and all 190 css functions) carries a frame obligation: the written object was allocated during the same call (fresh literals, make, append chains, the local token and attribute variables) or the instruction is unreachable under p.initialized (init's ten stores); no package-level variable is written. Determinism: the functional postconditions of C01-C12 are proved with map iteration in arbitrary order, so no result can depend on it."},
+ "C14": {"title": "Sanitising always returns promptly and never panics",
+   "runs": [{"fn": ["*", "!css.init", "!bluemonday.init", "!sanitise_ugc.init", "!sanitise_html_email.init"], "beh": ""}], "string_track": ["C14"], "timeout": 15, "min_obligations": 1500,
+   "trusted_base": [T_SSA, T_SOLV, T_HTML, T_IO, T_RE, T_STR, T_CB,
+      "strings.Split with a non-empty separator returns at least one element; FindStringIndex returns nil or [a,b] with 0<=a<=b<=len(s); ParseDeclarations returns non-nil declarations on success; url.Parse returns a non-nil URL when err is nil (T5-T7)",
+      "the serialisation of a URL that parsed parses again (reparses, T5): the only support of parsedURL != nil at parsedURL.String() in the src-rewriter branch"],
+   "not_decided": ["running time bounded by a low-degree polynomial of the input length: cost recurrences need induction over sums that the solvers do not do; only termination measures of the recursive function and the safety (no panic) obligations are discharged",
+                   "termination of the three hand-written loops (parseQuery, removeUnicode) is argued from string lengths that the opaque string model cannot express",
+                   "stack overflow by deep recursion in css.recursiveCheck (depth is bounded by the number of space-separated parts of one CSS value)"],
+   "level_text": "Proof, for every function of both packages and both command-line tools, of one obligation per instruction that can panic: index and slice bounds, nil-map writes, nil dereferences (method receivers are checked at every internal call site), calls through nil function values, division by zero, unchecked type assertions, explicit panics; plus the termination measure of css.recursiveCheck. Contracts of the builders carry the representation invariant wfp through every exported builder, so the obligations hold for every policy the API can produce."},
  "C16": {"title": "I/O failures are reported and the output stays a clean prefix",
    "runs": [{"fn": SAN + [P+"sanitizeWithBuff", P+"SanitizeReader", P+"SanitizeReaderToWriter", "(*bluemonday.asStringWriter).WriteString"], "beh": ""}], "timeout": 15, "min_obligations": 60,
    "trusted_base": [T_SSA, T_SOLV, T_HTML, T_IO],
